@@ -282,7 +282,8 @@ PREC wrapper), the terminal is used nowhere else, and — for a string — the r
 (`_`-prefixed).  Otherwise the rule stays a non-terminal with the single production `x → 'string'`.
 `tokenView` rewrites exactly those rules to `seq(body, blank)`, so that `DerivesTok (tokenView g)`
 reads them as rules: it is the token-level reading of grammar.json the drivers use (part of the
-specification, like `DerivesTok` itself; it changes nothing for grammars without such rules). -/
+specification, like `DerivesTok` itself; it changes nothing for grammars without such rules).
+An external token (a symbol of `externals` that is no rule) is read as a token named by the symbol. -/
 
 /-- occurrences of the string `s` as a token of its own (not inside `token(…)`) -/
 def strUses (s : String) : Rule → Nat
@@ -308,8 +309,16 @@ def absorbed (g : Grammar) (x : String) (b : Rule) : Bool :=
   | .immToken _ => true
   | _ => false
 
+/-- external tokens that are not rules of the grammar: tokens named by their symbol -/
+def externalNames (g : Grammar) : List String :=
+  (g.externals.filterMap fun e => match e with
+    | .sym x => if (g.body x).isNone then some x else none
+    | _ => none).eraseDups
+
 def tokenView (g : Grammar) : Grammar :=
-  { g with rules := g.rules.map fun e =>
-      if isTerminalBody e.2 && !absorbed g e.1 e.2 then (e.1, .seq e.2 .blank) else e }
+  { g with rules := (g.rules.map fun e =>
+      if isTerminalBody e.2 && !absorbed g e.1 e.2 then (e.1, .seq e.2 .blank) else e) ++
+      -- an external token is read as a token rule of its own name
+      (externalNames g).map fun x => (x, Rule.pat "<external>") }
 
 end TsVerif.C03
